@@ -228,7 +228,8 @@ class Codec:
             return (None, parsed_length, None)
 
         checksum_passed = False
-        parsed_length += msg_length
+        # what is consumed is the frame that was parsed, whatever length it declares
+        parsed_length += next_msg
 
         decoded_msg = FIXMessage("UNKNOWN")
         repeating_groups = []
